@@ -26,7 +26,82 @@ func (a *Act) staticCallee(com *ssa.CallCommon) *ssa.Function {
 }
 
 func (a *Act) isPureFnValue(v ssa.Value) bool {
-	return a.pureFns[v]
+	if a.pureFns[v] {
+		return true
+	}
+	// a phi that selects between pure function values and simple effect-free static functions
+	// (predicate.True, mapper.Identity: `if f == nil { f = Default }`) is a pure function value itself
+	if phi, ok := v.(*ssa.Phi); ok {
+		for _, e := range phi.Edges {
+			if a.pureFns[e] {
+				continue
+			}
+			if fn, ok := e.(*ssa.Function); ok && a.simpleStatic(fn) {
+				continue
+			}
+			return false
+		}
+		return len(phi.Edges) > 0
+	}
+	return false
+}
+
+// simpleStatic: a closure-free straight-line function without calls or memory access: its value as a
+// function constant is characterised by the axiom apply(f, args) == body(args).
+func (a *Act) simpleStatic(fn *ssa.Function) bool {
+	if len(fn.Blocks) != 1 || len(fn.FreeVars) > 0 || fn.Signature.Results().Len() != 1 {
+		return false
+	}
+	for _, ins := range fn.Blocks[0].Instrs {
+		switch ins.(type) {
+		case *ssa.Return, *ssa.DebugRef:
+		default:
+			return false
+		}
+	}
+	ret := fn.Blocks[0].Instrs[len(fn.Blocks[0].Instrs)-1].(*ssa.Return)
+	switch ret.Results[0].(type) {
+	case *ssa.Parameter, *ssa.Const:
+	default:
+		return false
+	}
+	// the defining axiom
+	key := "simple:" + a.u.E.KeyOf(fn)
+	if a.u.pureDefined[key] {
+		return true
+	}
+	a.u.pureDefined[key] = true
+	d := a.u.D
+	fc := intLit(int64(d.FuncID(a.u.E.KeyOf(fn))))
+	var binders, vars []string
+	var args []Val
+	for i, p := range fn.Params {
+		v := fmt.Sprintf("pv%d", i)
+		binders = append(binders, fmt.Sprintf("(%s %s)", v, d.SortOf(p.Type())))
+		vars = append(vars, v)
+		args = append(args, Val{T: Term(v), Typ: p.Type()})
+	}
+	lhs := a.applyPure(fc, args, fn.Signature).T
+	var rhs Term
+	switch r := ret.Results[0].(type) {
+	case *ssa.Parameter:
+		for i, p := range fn.Params {
+			if p == r {
+				rhs = Term(vars[i])
+			}
+		}
+	case *ssa.Const:
+		rhs = a.constVal(r).T
+	}
+	if rhs == "" {
+		return false
+	}
+	if len(binders) == 0 {
+		a.u.Fact(eq(lhs, rhs))
+	} else {
+		a.u.Fact(fmt.Sprintf("(forall (%s) (! (= %s %s) :pattern (%s)))", strings.Join(binders, " "), lhs, rhs, lhs))
+	}
+	return true
 }
 
 func (a *Act) invokeIsPure(com *ssa.CallCommon) bool {
